@@ -232,4 +232,15 @@ Proof.
   rewrite F2, F3, F4. repeat split; reflexivity.
 Qed.
 
+
+(* a Retry packet: the session forgets every key and the whole TLS state -- the repeated ClientHello starts from empty streams again
+   (client_hello_frame applies), the next Initial packet derives the Initial keys from its own destination connection ID -- and keeps
+   what RFC 9000 17.2.5.3 says it must keep: the packet-number spaces, and the connection IDs and the output collected so far *)
+Variable ftable : list (list Z * fclass).
+Theorem retry_resets s pk : qp_type pk = QRetry ->
+  exists s', process_qpacket C keylog ftable s pk = Ok s' /\
+    qs_tls s' = qtls0 /\ qs_initial s' = None /\ qs_handshake s' = None /\ qs_app s' = None /\ qs_early s' = None /\ qs_cipher s' = None /\ qs_hash s' = None /\
+    qs_hp s' = hp_none /\ qs_pn s' = qs_pn s /\ qs_output s' = qs_output s /\ qs_client_cids s' = qs_client_cids s /\ qs_server_cids s' = qs_server_cids s /\
+    qs_version s' = qs_version s.
+Proof. intros H. unfold process_qpacket. rewrite H. cbn [bind]. eexists. split; [reflexivity|]. repeat split; reflexivity. Qed.
 End Front.
